@@ -38,7 +38,7 @@ T_L == { G("R", <<QI("q", 0), Let("a")>>), G("X", <<Qb("q", Let("a"))>>), G("X",
 O_L == { OSeq, OPar, OLoop(Let("a"), FALSE), OSub(Let("a")) }
 
 \* ---------------------------------------------------------------- C09: subcircuit blocks everywhere legal
-M_S == << MD("m1", <<"x">>, {"seq"}, { G("X", <<Par("x")>>) }, { OSub(I2) }, 2) >>
+M_S == << MD("m1", <<"x">>, {"seq"}, { G("X", <<Par("x")>>) }, { OSub(I2), OLoop(I2, FALSE) }, 3) >>
 T_S == { G("X", <<QI("q", 0)>>), G("m1", <<QI("q", 1)>>), G("prepare_all", <<>>), G("measure_all", <<>>) }
 O_S == { OSeq, OPar, OLoop(I2, FALSE), OSub(I1), OSub(Let("b")) }
 
@@ -54,11 +54,18 @@ O_A == { OSeq, OPar, OLoop(I2, FALSE), OSub(I1) }
 
 \* ---------------------------------------------------------------- C10 / C11: all four passes have work to do
 H_X == { Hdr(<<DLet("a", I1), DLet("n", I2)>>, <<DReg("q", I3), DSlice("r", "q", Let("a"), None, None)>>, <<>>, <<>>),
-         Hdr(<<DLet("a", I1), DLet("n", I2)>>, <<DReg("q", I3), DSlice("r", "q", I0, Let("n"), None)>>, <<>>, ExactGates) }
-M_X == << MD("m1", <<"x">>, {"seq"}, { G("X", <<Par("x")>>), G("X", <<QI("r", 0)>>) }, { OSub(I1) }, 1),
+         Hdr(<<DLet("a", I1), DLet("n", I2)>>, <<DReg("q", I3), DSlice("r", "q", I0, Let("n"), None)>>, <<>>, ExactGates),
+         \* a native table WITHOUT prepare_all / measure_all (expand_subcircuits has to make them up)
+         Hdr(<<DLet("a", I1), DLet("n", I2)>>, <<DReg("q", I3), DSlice("r", "q", I0, Let("n"), None)>>, <<>>, ActiveGates) }
+M_X == << MD("m1", <<"x">>, {"seq"}, { G("X", <<Par("x")>>), G("X", <<QI("r", 0)>>) }, { OSub(I1), OLoop(Let("n"), FALSE) }, 1),
           MD("m2", <<"x", "y">>, {"seq", "par"}, { G("m1", <<Par("x")>>), G("R", <<Par("x"), Par("y")>>) }, {}, 1) >>
 T_X == { G("X", <<QI("r", 0)>>), G("m1", <<Qb("q", Let("a"))>>), G("m2", <<QI("q", 2), Let("n")>>),
          G("prepare_all", <<>>), G("measure_all", <<>>) }
+\* macros whose body is a single loop / parallel block / call, called directly inside blocks
+M_XP == << MD("m1", <<"x">>, {"seq", "par"}, { G("X", <<Par("x")>>) }, { OLoop(Let("n"), FALSE), OPar }, 2),
+           MD("m2", <<"x">>, {"seq"}, { G("m1", <<Par("x")>>) }, {}, 1) >>
+T_XP == { G("m1", <<QI("q", 0)>>), G("m2", <<QI("q", 1)>>), G("X", <<QI("q", 2)>>) }
+O_XP == { OSeq, OPar }
 O_X == { OSeq, OPar, OLoop(Let("n"), FALSE), OSub(I1), OSub(Let("n")) }
 
 \* ---------------------------------------------------------------- C07: colliding names (lexical scoping)
